@@ -56,6 +56,14 @@ RULE = ("the runs of C02 (2D shelf / VISF / jacket, 1D shelf / VISF; vials off t
 EXPLANATION = ("Lean theorems over the reals (convexity of every cooling-stage assignment, 0D steps, liquidus "
                "algebra) + differential check of the 2D model + bounds evaluated on real recorded fields")
 PARALLEL = True
+LEVEL_TEXT = ("PARTIAL proof. Lean 4 theorems (exact reals): the code's dt implies the CFL inequality; 0D steps (both stages) "
+              "stay between T and T_shelf; every cooling-stage assignment of the 1D and of the 2D scheme is a convex "
+              "combination of the values it reads (2D: for any reader, so also for the aliased in-place array; r_j >= "
+              "dr/2 proved for the code's grid), hence the cooling-stage maximum principle for the repaired and for the "
+              "in-place step; 0 <= w_i < w_water, ice iff T < T_eq_l, liquidus relation, no ice before nucleation. NOT "
+              "proved: the maximum principle of the solidification stage (variable conductivity, apparent heat capacity) "
+              "-- all bounds are additionally evaluated on every reported node and time of real runs inside the "
+              "stability range.")
 
 
 
